@@ -96,14 +96,20 @@ Inductive tok :=
 | KTxt (s : string)                 (* everything else: identifiers, keywords, operators, aliases, raw literals *)
 | KLit (l : lit) (txt : string)     (* an inline value literal and its text *)
 | KAuto (n : nat) (txt : string)    (* placeholder written by the collector for the entry it stored at index n *)
-| KExp (txt : string).              (* an explicit Parameter(...) term *)
+| KExp (txt : string)               (* an explicit Parameter(...) term *)
+| KGuard (s : string).              (* a parenthesis the renderer adds because the operand's TEXT starts with a minus sign
+                                       ("a"-(-1), -(-1)): depends on the literal's text, so it is absent when the literal
+                                       is replaced by a placeholder ("a"-?) *)
 
 Definition tok_text (t : tok) : string :=
-  match t with KTxt s => s | KLit _ s => s | KAuto _ s => s | KExp s => s end.
+  match t with KTxt s => s | KLit _ s => s | KAuto _ s => s | KExp s => s | KGuard s => s end.
 Definition flatten (l : list tok) : string := sconcat (map tok_text l).
 
 Definition is_auto (t : tok) : bool := match t with KAuto _ _ => true | _ => false end.
 Definition is_lit (t : tok) : bool := match t with KLit _ _ => true | _ => false end.
+Definition is_guard (t : tok) : bool := match t with KGuard _ => true | _ => false end.
+(* the token sequence without the sign-protecting parentheses *)
+Definition unguard (l : list tok) : list tok := filter (fun t => negb (is_guard t)) l.
 Definition no_auto (l : list tok) : bool := forallb (fun t => negb (is_auto t)) l.
 Fixpoint autos (l : list tok) : list (nat * string) :=
   match l with [] => [] | KAuto n s :: r => (n, s) :: autos r | _ :: r => autos r end.
@@ -122,6 +128,11 @@ Definition tbind {A B} (x : res (A * pstate)) (f : A -> pstate -> res (B * pstat
   match x with Ok (a, st) => f a st | Err e => Err e end.
 
 Definition parl (b : bool) (l : list tok) : list tok := if b then KTxt "(" :: l ++ [KTxt ")"] else l.
+Definition gparl (b : bool) (l : list tok) : list tok := if b then KGuard "(" :: l ++ [KGuard ")"] else l.
+(* paren (a || b): [a] is decided by the operand's class, [b] by its text (leading minus) *)
+Definition wrap2 (a b : bool) (l : list tok) : list tok := if a then parl true l else gparl b l.
+(* _operand_sql: a predicate used as an operand gets parentheses *)
+Definition opndl (sl : oslot) (t : term) (l : list tok) : list tok := parl (operand_parens sl (okind_of t)) l.
 (* the part format_alias_sql appends *)
 Definition alias_toks (c : ctx) (qc : option string) (alias : option string) : list tok :=
   match alias with
@@ -175,39 +186,54 @@ Fixpoint render_t (isf : string -> bool) (m : option style) (c : ctx) (t : term)
   | TValNone alias => val_leaf isf m c LNull "null" alias st
   | TValRaw txt alias => val_leaf isf m c (LRaw txt) txt alias st
   | TParam txt => ret [KExp txt] st
-  | TNeg t' => tbind (render_t isf m c t' st) (fun a s1 => ret (KTxt "-" :: a) s1)
+  | TNeg t' =>
+      tbind (render_t isf m (opc SNeg t' c) t' st) (fun a0 s1 =>
+      let a := opndl SNeg t' a0 in
+      ret (KTxt "-" :: wrap2 (match t' with TArith _ _ _ _ => neg_parens_arith | TNeg _ => neg_parens_neg | _ => false end)
+                             (neg_parens_minus && starts_minus (flatten a)) a) s1)
   | TArith op l r alias =>
       let c' := set_wa c false in
-      tbind (render_t isf m c' l st) (fun a s1 =>
-      tbind (render_t isf m c' r s1) (fun b s2 =>
-      ret (aliased (wa c) c (q c)
-             (parl (left_needs_parens op (top_op l)) a ++ KTxt (aop_text op) :: parl (right_needs_parens op (top_op r)) b)
-             alias) s2))
+      let fin (a0 b0 : list tok) : list tok :=
+        let a := opndl SArithL l a0 in
+        let b := opndl SArithR r b0 in
+        aliased (wa c) c (q c)
+          (parl (left_needs_parens op (top_op l)) a ++ KTxt (aop_text op) ::
+           wrap2 (right_needs_parens op (top_op r))
+                 (sub_parens_minus && (match op with OSub => true | _ => false end) && starts_minus (flatten b)) b)
+          alias in
+      (* the order in which ArithmeticExpression.get_sql renders its two operands is read off the source *)
+      if arith_left_first
+      then tbind (render_t isf m (opc SArithL l c') l st) (fun a0 s1 =>
+           tbind (render_t isf m (opc SArithR r c') r s1) (fun b0 s2 => ret (fin a0 b0) s2))
+      else tbind (render_t isf m (opc SArithR r c') r st) (fun b0 s1 =>
+           tbind (render_t isf m (opc SArithL l c') l s1) (fun a0 s2 => ret (fin a0 b0) s2))
   | TBasic cm l r alias =>
       let c' := set_wa c false in
-      tbind (render_t isf m c' l st) (fun a s1 =>
-      tbind (render_t isf m c' r s1) (fun b s2 =>
-      ret (aliased (wa c) c None (a ++ KTxt (cmp_text cm) :: b) alias) s2))
+      tbind (render_t isf m (opc SCmpL l c') l st) (fun a s1 =>
+      tbind (render_t isf m (opc SCmpR r c') r s1) (fun b s2 =>
+      ret (aliased (wa c) c None (opndl SCmpL l a ++ KTxt (cmp_text cm) :: opndl SCmpR r b) alias) s2))
   | TCplx bo l r alias =>
       tbind (render_t isf m (set_subc c (needs_brackets_x bo (top_bop l))) l st) (fun a s1 =>
       tbind (render_t isf m (set_subc c (needs_brackets_x bo (top_bop r))) r s1) (fun b s2 =>
       ret (parl (subc c) (a ++ KTxt (" " ++ bop_text_x bo ++ " ") :: b)) s2))
   | TIn t' cont negated alias =>
-      tbind (render_t isf m (set_subq c false) t' st) (fun a s1 =>
+      tbind (render_t isf m (opc SInTerm t' (set_subq c false)) t' st) (fun a s1 =>
       tbind (render_t isf m (set_subq c true) cont s1) (fun b s2 =>
-      ret (aliased true c (q c) (a ++ KTxt (" " ++ (if negated then "NOT " else "") ++ "IN ") :: b) alias) s2))
+      ret (aliased true c (q c) (opndl SInTerm t' a ++ KTxt (" " ++ (if negated then "NOT " else "") ++ "IN ") :: b) alias) s2))
   | TBetween t' lo hi alias =>
-      tbind (render_t isf m c t' st) (fun a s1 =>
-      tbind (render_t isf m c lo s1) (fun b s2 =>
-      tbind (render_t isf m c hi s2) (fun d s3 =>
-      ret (aliased true c (q c) (a ++ KTxt " BETWEEN " :: b ++ KTxt " AND " :: d) alias) s3)))
+      tbind (render_t isf m (opc SBetTerm t' c) t' st) (fun a s1 =>
+      tbind (render_t isf m (opc SBetLo lo c) lo s1) (fun b s2 =>
+      tbind (render_t isf m (opc SBetHi hi c) hi s2) (fun d s3 =>
+      ret (aliased true c (q c) (opndl SBetTerm t' a ++ KTxt " BETWEEN " :: opndl SBetLo lo b ++ KTxt " AND " :: opndl SBetHi hi d) alias) s3)))
   | TBitAnd t' v alias =>
       tbind (render_t isf m c t' st) (fun a s1 =>
       ret (aliased true c (q c) (KTxt "(" :: a ++ [KTxt (" & " ++ v ++ ")")]) alias) s1)
   | TIsNull t' alias =>
-      tbind (render_t isf m (set_wa c false) t' st) (fun a s1 => ret (aliased true c (q c) (a ++ [KTxt " IS NULL"]) alias) s1)
+      tbind (render_t isf m (opc SIsNull t' (set_wa c false)) t' st) (fun a s1 =>
+      ret (aliased true c (q c) (opndl SIsNull t' a ++ [KTxt " IS NULL"]) alias) s1)
   | TNotNull t' alias =>
-      tbind (render_t isf m (set_wa c false) t' st) (fun a s1 => ret (aliased true c (q c) (a ++ [KTxt " IS NOT NULL"]) alias) s1)
+      tbind (render_t isf m (opc SNotNull t' (set_wa c false)) t' st) (fun a s1 =>
+      ret (aliased true c (q c) (opndl SNotNull t' a ++ [KTxt " IS NOT NULL"]) alias) s1)
   | TNot t' alias =>
       tbind (render_t isf m (set_subc c true) t' st) (fun a s1 =>
       ret (aliased true (set_subc c true) (q c) (KTxt "NOT " :: a) alias) s1)
@@ -307,6 +333,7 @@ Definition by_value (isf : string -> bool) (t : tok) : vtok :=
   | KTxt s => VT s
   | KExp s => VT s
   | KAuto _ s => VT s
+  | KGuard s => VT s
   | KLit l _ => lit_value isf l
   end.
 
@@ -422,7 +449,7 @@ Definition alias_hit (cols : list term) (t : term) : bool :=
 
 (* _group_sql / _orderby_sql for one member; [k] is the kwargs context of the builder *)
 Definition by_item (k : ctx) (cols : list term) (t : term) : list item :=
-  if alias_hit cols t then [IText (fq (or_ostr (aq k) (q k)) (ostr (term_alias t)))] else [ITerm k t].
+  if alias_hit cols t then [IText (fq (or_ostr (aq k) (q k)) (ostr (term_alias t)))] else [ITerm (set_subq k true) t].
 Definition dir_text (d : option bool) : list item :=
   match d with None => [] | Some true => [IText " ASC"] | Some false => [IText " DESC"] end.
 
@@ -454,7 +481,7 @@ Fixpoint elab_sel (k : ctx) (with_alias subquery : bool) (s : sel) {struct s} : 
             | [] => []
             | _ => IText " GROUP BY " :: sep_items "," (map (by_item kk cols) grp)
             end
-        | ClHaving => match hav with WNone => [] | WSome w => IText " HAVING " :: elab_wc kk w end
+        | ClHaving => match hav with WNone => [] | WSome w => IText " HAVING " :: elab_wc (set_subq kk true) w end
         | ClOrderby =>
             match ord with
             | [] => []
@@ -528,7 +555,7 @@ Definition elab_stmt (sqlite : bool) (s : stmt) : list item :=
         | ClSet =>
             IText " SET " ::
             sep_items "," (map (fun fv => [IText (fq (q k) (fst fv) ++ "=");
-                                             match snd fv with SVal t => ITerm k t | SWrap t => IWrap k t end]) sets)
+                                             match snd fv with SVal t => ITerm (set_subq k true) t | SWrap t => IWrap (set_subq k true) t end]) sets)
         | ClWhere => elab_owc " WHERE " (set_subq k true) wh
         | _ => [] end) update_order
   | SDelete tbl wh =>
